@@ -5,6 +5,7 @@ package main
 
 import (
 	"fmt"
+	"os"
 	"go/token"
 	"go/types"
 	"sort"
@@ -456,34 +457,87 @@ func (f *Frame) resolveLocal(name string, at *ssa.BasicBlock, atIdx int, phiSubs
 		// the deeper block in the dominator tree is the later one
 		return best.b.Dominates(c.b)
 	}
-	for _, b := range f.fn.Blocks {
-		if at == nil || !(b == at || b.Dominates(at)) {
-			continue
+	// Every value that some DebugRef (anywhere in the function) or phi comment associates with
+	// the variable is a candidate; the value of the variable at `at` is the candidate whose
+	// definition dominates `at` and is the latest in dominance order. (go/ssa attaches the
+	// DebugRef of a `:=` definition to the zero value, so definitions alone are not reliable.)
+	defPos := func(v ssa.Value) (*ssa.BasicBlock, int, bool) {
+		ins, ok := v.(ssa.Instruction)
+		if !ok {
+			return nil, -1, true // parameters, constants, globals: available everywhere
 		}
-		for i, ins := range b.Instrs {
-			if b == at && i >= atIdx {
-				if _, isPhi := ins.(*ssa.Phi); !isPhi {
-					break
-				}
+		b := ins.Block()
+		if b == nil {
+			return nil, -1, true
+		}
+		for i, x := range b.Instrs {
+			if x == ins {
+				return b, i, true
 			}
+		}
+		return b, 0, true
+	}
+	consider := func(v ssa.Value, isAddr bool, phi *ssa.Phi) {
+		if at == nil {
+			return
+		}
+		b, idx, _ := defPos(v)
+		if b != nil {
+			if !(b == at || b.Dominates(at)) {
+				return
+			}
+			if b == at && phi == nil && idx >= atIdx {
+				return
+			}
+		}
+		c := &cand{b: b, idx: idx, v: v, isAddr: isAddr, phi: phi}
+		if _, isConst := v.(*ssa.Const); isConst {
+			c.idx = -2
+		}
+		if best == nil {
+			best = c
+			return
+		}
+		switch {
+		case best.b == nil && c.b == nil:
+			if c.idx > best.idx {
+				best = c
+			}
+		case best.b == nil:
+			best = c
+		case c.b == nil:
+		case c.b == best.b:
+			if c.idx > best.idx {
+				best = c
+			}
+		case best.b.Dominates(c.b):
+			best = c
+		}
+	}
+	_ = better
+	for _, b := range f.fn.Blocks {
+		for _, ins := range b.Instrs {
 			switch x := ins.(type) {
 			case *ssa.DebugRef:
 				if o := x.Object(); o != nil && o.Name() == name {
 					if _, isVar := o.(*types.Var); !isVar {
 						continue
 					}
-					c := &cand{b: b, idx: i, v: x.X, isAddr: x.IsAddr}
-					if better(c) {
-						best = c
-					}
+					consider(x.X, x.IsAddr, nil)
 				}
 			case *ssa.Phi:
 				if x.Comment == name {
-					c := &cand{b: b, idx: i, v: x, phi: x}
-					if better(c) {
-						best = c
-					}
+					consider(x, false, x)
 				}
+			}
+		}
+	}
+	if os.Getenv("GOVC_DEBUG") != "" {
+		fmt.Fprintf(os.Stderr, "resolveLocal %s at %v: best=%v\n", name, at, best)
+		if best != nil {
+			fmt.Fprintf(os.Stderr, "   v=%v (%T) block=%v idx=%d fn=%s instr=%v\n", best.v, best.v, best.b, best.idx, f.fn.String(), best.b.Instrs[best.idx])
+			for i, ins := range best.b.Instrs {
+				fmt.Fprintf(os.Stderr, "      %d: %v (%T)\n", i, ins, ins)
 			}
 		}
 	}
